@@ -26,6 +26,8 @@ CH2 = CHOICE(I("u8"), BYTES)
 CH = CHOICE(I("i16"), BOOL, STR, INNER, CH2, COLOR)
 TUP = SEQ(R(I("u16")))
 TUPL = SEQ(R(LIST(STR)))
+BLANK = SEQ(O(I("u8")), O(STR), O(LIST(BOOL)))     # a message that can be blank (zero bytes of content)
+CHBLANK = CHOICE(BLANK, I("u8"))
 
 ZOO = {
     0: SEQ(R(I("u8")), R(I("i8")), R(I("u16")), R(I("i16")), R(I("u32")), R(I("i32")), R(I("u64")), R(I("i64")), R(I("u64"))),
@@ -50,10 +52,14 @@ ZOO = {
     19: SEQ(R(LIST(LIST(I("u8")))), R(I("u8"))),
     20: CHOICE(LIST(I("u8")), I("u8")),
     21: SEQ(R(LIST(NULL)), R(I("u8"))),
+    22: BLANK,
+    23: SEQ(R(LIST(BLANK)), R(I("u8"))),
+    24: CHBLANK,
+    25: SEQ(R(BLANK), O(BLANK), R(CHBLANK), R(BOOL)),
 }
 ZOO_NAMES = {0: "Ints", 1: "Inner", 2: "Color", 3: "Prim", 4: "Opt", 5: "Lists", 6: "Ch2", 7: "Ch", 8: "ChSeq",
              9: "Lists2", 10: "Tup", 11: "TupL", 12: "UseTup", 13: "Deep", 14: "SetT", 15: "NullSeq", 16: "OptNull",
-             17: "ChNull", 18: "BitsT", 19: "Nested", 20: "ChList", 21: "ListNull"}
+             17: "ChNull", 18: "BitsT", 19: "Nested", 20: "ChList", 21: "ListNull", 22: "Blank", 23: "ListBlank", 24: "ChBlank", 25: "SeqBlank"}
 PEQ_ZOO = {
     0: SEQ(O(I("u64")), O(STR), O(BOOL), R(LIST(I("i32"))), O(BYTES), R(BITS), O(INNER), O(LIST(STR))),
     1: CHOICE(I("u64"), INNER, STR),
@@ -559,6 +565,33 @@ def parse_4050(o):
     return res
 
 
+def blank_cases():
+    """deterministic family: a nested message all of whose components are OPTIONAL, blank / holding only an empty
+    list / partly filled / filled, as list element (mixed within one list), CHOICE alternative (top-level and nested),
+    required and OPTIONAL component"""
+    blank = [NONE, NONE, NONE]
+    emptyl = [NONE, NONE, some([])]                      # also zero bytes of content
+    zero_a = [some(0), NONE, NONE]                       # a default-valued scalar that is present
+    empty_s = [NONE, some(()), NONE]
+    filled = [some(5), some((104, 105)), some([True, False])]
+    part = [NONE, some((120,)), NONE]
+    shapes = [blank, emptyl, zero_a, empty_s, filled, part]
+    cases = [(22, s) for s in shapes]
+    lists = [[], [blank], [blank, blank], [filled, blank, filled], [blank, filled], [filled, blank], [emptyl, blank, part],
+             [blank, zero_a, blank, empty_s, blank], [blank] * 5, [filled, filled]]
+    for l in lists:
+        for x in (0, 7):
+            cases.append((23, [l, x]))
+    alts = [(0, s) for s in shapes] + [(1, 0), (1, 9)]
+    cases += [(24, a) for a in alts]
+    for r in (blank, filled, emptyl):
+        for o in (NONE, some(blank), some(filled), some(emptyl), some(zero_a)):
+            for c in ((0, blank), (0, filled), (0, part), (1, 0), (1, 3)):
+                for x in (False, True):
+                    cases.append((25, [r, o, c, x]))
+    return cases
+
+
 def zoo_cases(rng, tier, ids=None, quick_n=110):
     """-> list of (tid, value) with coverage of boundaries, defaults, optionals, alternatives"""
     n_rand = quick_n if tier == "quick" else 2500
@@ -573,6 +606,7 @@ def zoo_cases(rng, tier, ids=None, quick_n=110):
                 cases.append((tid, gen_val(t, rng, style)))
         for v in all_alternatives(t, rng):
             cases.append((tid, v))
+    cases += [(tid, v) for tid, v in blank_cases() if ids is None or tid in ids]
     # every boundary of every integer kind (type 0 holds all of them)
     t0 = ZOO[0]
     kinds = [ft[1] for _, ft in t0[1]]
@@ -595,9 +629,9 @@ class C17(Spec):
                   "breaks the property; the model is tied to the crate by differential execution over a zoo of asn_to_rust! types "
                   "(dev and release), with a Python oracle for ProtobufEq and byte equality of the two writer back ends.")
     rule = ("primitive ops: varint/zig-zag/tag/uint32/bool/sfixed32 boundary families (+-2^k+-1, type extremes) and random values "
-            "with tails; raw reads of random/biased bytes incl. UTF-8 edge sequences; zoo of 22 generated types x styles "
+            "with tails; raw reads of random/biased bytes incl. UTF-8 edge sequences; zoo of 26 generated types x styles "
             "{default-ish, random with boundary integers, big (long strings/lists)} x cap modes {exact, +3, -1} for the slice back end, "
-            "every CHOICE alternative, every boundary of every integer kind; ProtobufEq on hand-written derive types; malformed "
+            "every CHOICE alternative, every boundary of every integer kind, a fixed family of blank / partly filled nested messages (list element, CHOICE alternative, required, OPTIONAL; mixed within one list); ProtobufEq on hand-written derive types; malformed "
             "streams for every zoo type (random bytes, truncations, bit flips, length-field overwrites of well-formed encodings). "
             "non-trivial = the op wrote at least one byte and the read-back succeeded, or a raw read got past its first byte; "
             "distinct = distinct case line")
